@@ -22,6 +22,7 @@ ENGINES = {
     "C17": ("eng_text", "run"),
     "C18": ("eng_hub", "run"),
     "C19": ("eng_angle", "run"),
+    "C20": ("eng_toolbox", "run"),
 }
 
 
